@@ -20,6 +20,8 @@ import (
 	"context"
 	"errors"
 	"fmt"
+	"os"
+	"path/filepath"
 	"regexp"
 	"sort"
 	"strings"
@@ -98,23 +100,78 @@ func pathClass(p string) string {
 	return p
 }
 
+// backend is the storage a fixture lives on: the in-memory engine (atomic
+// puts) or a directory accessed through the repository's own file engine.
+type backend interface {
+	Open(ctx context.Context, client int, hook lakeh.Interposer) (*lakeh.Lake, error)
+	Clone() (backend, error)
+	Kind() string
+	Drop()
+}
+
+type memB struct{ st *lakeh.MemStore }
+
+func (m memB) Open(ctx context.Context, client int, hook lakeh.Interposer) (*lakeh.Lake, error) {
+	return lakeh.Open(ctx, m.st, client, hook)
+}
+func (m memB) Clone() (backend, error) { return memB{m.st.Clone()}, nil }
+func (m memB) Kind() string            { return "mem" }
+func (m memB) Drop()                   {}
+
+var fsSeq int
+
+type fsB struct {
+	b       *lakeh.FSBackend
+	scratch string
+}
+
+func (f fsB) Open(ctx context.Context, client int, hook lakeh.Interposer) (*lakeh.Lake, error) {
+	return f.b.Open(ctx, client, hook)
+}
+func (f fsB) Clone() (backend, error) {
+	fsSeq++
+	nb, err := f.b.Clone(filepath.Join(f.scratch, fmt.Sprintf("fs-%d", fsSeq)))
+	if err != nil {
+		return nil, err
+	}
+	return fsB{nb, f.scratch}, nil
+}
+func (f fsB) Kind() string { return "fs" }
+func (f fsB) Drop()        { os.RemoveAll(f.b.Dir) }
+
 type fixture struct {
-	store *lakeh.MemStore
+	store backend
 	p, q  ksuid.KSUID
 	o1    ksuid.KSUID
 	o2    ksuid.KSUID
 	c1    ksuid.KSUID // first load commit on main
+	// the backend/hook of the run in progress (for operations that open their own cold handle)
+	cur     backend
+	curHook lakeh.Interposer
 }
 
 func msg() api.CommitMessage { return api.CommitMessage{Author: "verif"} }
 
-func buildFixture(ctx context.Context, fill bool) (*fixture, error) {
-	st := lakeh.NewMemStore()
-	lk, err := lakeh.Create(ctx, st, 0, nil)
+func buildFixture(ctx context.Context, kind, scratch string) (*fixture, error) {
+	var lk *lakeh.Lake
+	var err error
+	var be backend
+	if kind == "fs" {
+		b, e := lakeh.NewFSBackend(filepath.Join(scratch, "fs-fixture"))
+		if e != nil {
+			return nil, e
+		}
+		lk, err = b.Create(ctx, 0, nil)
+		be = fsB{b, scratch}
+	} else {
+		st := lakeh.NewMemStore()
+		lk, err = lakeh.Create(ctx, st, 0, nil)
+		be = memB{st}
+	}
 	if err != nil {
 		return nil, err
 	}
-	f := &fixture{store: st}
+	f := &fixture{store: be}
 	if f.p, err = lk.CreatePool(ctx, "p", "k", "asc", 0, 0); err != nil {
 		return nil, err
 	}
@@ -156,7 +213,6 @@ func buildFixture(ctx context.Context, fill bool) (*fixture, error) {
 	if _, err = lk.LoadZSON(ctx, f.q, "main", "{k:7,u:7}"); err != nil {
 		return nil, err
 	}
-	st.Fill = fill
 	return f, nil
 }
 
@@ -203,6 +259,14 @@ func opCases() []opCase {
 			_, err := lk.API.Vacuum(ctx, "p", "main", false)
 			return err
 		}},
+		{"query", func(ctx context.Context, lk *lakeh.Lake, f *fixture) error {
+			cold, err := f.cur.Open(ctx, 3, f.curHook)
+			if err != nil {
+				return err
+			}
+			_, err = cold.Query(ctx, "from p | count()")
+			return err
+		}},
 		{"createbranch", func(ctx context.Context, lk *lakeh.Lake, f *fixture) error {
 			return lk.API.CreateBranch(ctx, f.p, "b2", f.c1)
 		}},
@@ -225,9 +289,9 @@ func opCases() []opCase {
 // observe projects the visible state of the lake with a cold handle:
 // pools, branches per pool, contents per branch.  Unreadable parts are
 // reported in errs.
-func observe(ctx context.Context, st *lakeh.MemStore) (obs map[string]string, errs []string) {
+func observe(ctx context.Context, st backend) (obs map[string]string, errs []string) {
 	obs = map[string]string{}
-	lk, err := lakeh.Open(ctx, st, 90, nil)
+	lk, err := st.Open(ctx, 90, nil)
 	if err != nil {
 		return obs, []string{"lake cannot be opened: " + err.Error()}
 	}
@@ -271,9 +335,9 @@ func obsString(o map[string]string) string {
 }
 
 // usable runs the follow-up workload on the (crashed) store.
-func usable(ctx context.Context, st *lakeh.MemStore, f *fixture, redo *opCase) []string {
+func usable(ctx context.Context, st backend, f *fixture, redo *opCase) []string {
 	var errs []string
-	lk, err := lakeh.Open(ctx, st, 91, nil)
+	lk, err := st.Open(ctx, 91, nil)
 	if err != nil {
 		return []string{"lake cannot be opened: " + err.Error()}
 	}
@@ -304,16 +368,21 @@ func usable(ctx context.Context, st *lakeh.MemStore, f *fixture, redo *opCase) [
 }
 
 type bWitness struct {
-	Op   string `json:"op"`
-	K    int    `json:"k"`
-	Call string `json:"call"`
-	Fill bool   `json:"fill"`
+	Op      string `json:"op"`
+	K       int    `json:"k"`
+	Call    string `json:"call"`
+	Backend string `json:"backend"`
 }
 
 func runOpCrash(c *core.Ctx, ctx context.Context, f0 *fixture, oc opCase, k int, pre, post string) {
-	st := f0.store.Clone()
+	st, err := f0.store.Clone()
+	if err != nil {
+		c.Inconclusive("clone: %v", err)
+		return
+	}
+	defer st.Drop()
 	cs := &crashStore{}
-	lk, err := lakeh.Open(ctx, st, 1, cs.hook)
+	lk, err := st.Open(ctx, 1, cs.hook)
 	if err != nil {
 		c.Inconclusive("open for %s: %v", oc.name, err)
 		return
@@ -323,10 +392,11 @@ func runOpCrash(c *core.Ctx, ctx context.Context, f0 *fixture, oc opCase, k int,
 	cs.mu.Lock()
 	cs.calls, cs.at, cs.log = 0, k, nil
 	cs.mu.Unlock()
+	f0.cur, f0.curHook = st, cs.hook
 	opErr := oc.run(ctx, lk, f0)
 	call := cs.atCall.Kind + "@" + pathClass(cs.atCall.Path)
-	w := bWitness{Op: oc.name, K: k, Call: call, Fill: st.Fill}
-	c.Eval(fmt.Sprintf("%s|%d|%v", oc.name, k, st.Fill), true)
+	w := bWitness{Op: oc.name, K: k, Call: call, Backend: st.Kind()}
+	c.Eval(fmt.Sprintf("%s|%d|%v", oc.name, k, st.Kind()), true)
 	obs, errs := observe(ctx, st)
 	got := obsString(obs)
 	journal := ""
@@ -358,19 +428,23 @@ func runOpCrash(c *core.Ctx, ctx context.Context, f0 *fixture, oc opCase, k int,
 	}
 }
 
-func partB(c *core.Ctx, ctx context.Context, fill bool, only string, onlyK int) error {
-	f0, err := buildFixture(ctx, fill)
+func partB(c *core.Ctx, ctx context.Context, kind string, only string, onlyK int) error {
+	f0, err := buildFixture(ctx, kind, c.Scratch)
 	if err != nil {
 		return err
 	}
+	defer f0.store.Drop()
 	for _, oc := range opCases() {
 		if only != "" && oc.name != only {
 			continue
 		}
 		// dry run: count calls and get the post state
-		st := f0.store.Clone()
+		st, err := f0.store.Clone()
+		if err != nil {
+			return err
+		}
 		cs := &crashStore{}
-		lk, err := lakeh.Open(ctx, st, 1, cs.hook)
+		lk, err := st.Open(ctx, 1, cs.hook)
 		if err != nil {
 			return err
 		}
@@ -378,17 +452,24 @@ func partB(c *core.Ctx, ctx context.Context, fill bool, only string, onlyK int) 
 		cs.mu.Lock()
 		cs.calls, cs.log = 0, nil
 		cs.mu.Unlock()
+		f0.cur, f0.curHook = st, cs.hook
 		if err := oc.run(ctx, lk, f0); err != nil {
 			return fmt.Errorf("dry run of %s failed: %w", oc.name, err)
 		}
 		n := cs.calls
-		preObs, e1 := observe(ctx, f0.store.Clone())
+		pc, err := f0.store.Clone()
+		if err != nil {
+			return err
+		}
+		preObs, e1 := observe(ctx, pc)
 		postObs, e2 := observe(ctx, st)
+		pc.Drop()
+		st.Drop()
 		if len(e1)+len(e2) > 0 {
 			return fmt.Errorf("dry run of %s: unreadable: %v %v", oc.name, e1, e2)
 		}
 		pre, post := obsString(preObs), obsString(postObs)
-		c.Logf("%s: %d storage calls; enumerating every crash point (fill=%v)", oc.name, n, fill)
+		c.Logf("%s: %d storage calls; enumerating every crash point (backend %s)", oc.name, n, kind)
 		c.Add("crash_points", int64(n))
 		for k := 1; k <= n; k++ {
 			if onlyK != 0 && k != onlyK {
@@ -458,7 +539,7 @@ func run(c *core.Ctx) error {
 			partInit(c, ctx)
 			return nil
 		}
-		return partB(c, ctx, w.Fill, w.Op, w.K)
+		return partB(c, ctx, w.Backend, w.Op, w.K)
 	}
 	// ---- part A
 	r := &jrun.Runner{C: c, Ctx: ctx}
@@ -534,13 +615,16 @@ func run(c *core.Ctx) error {
 	}
 	// ---- part B
 	partInit(c, ctx)
-	if err := partB(c, ctx, false, "", 0); err != nil {
+	if err := partB(c, ctx, "mem", "", 0); err != nil {
 		return err
 	}
+	// the repository's own file engine, every individual write call a crash point
+	fsOnly := "load"
 	if !c.Quick() {
-		if err := partB(c, ctx, true, "", 0); err != nil {
-			return err
-		}
+		fsOnly = ""
+	}
+	if err := partB(c, ctx, "fs", fsOnly, 0); err != nil {
+		return err
 	}
 	c.Set("exhaustive", true)
 	return nil
